@@ -306,12 +306,16 @@ def getattr(I, st, v, name):
             else:
                 yield st, BoundMethod(m, v)
             return
-        if m is not None and not isinstance(m, FuncVal) and M.is_enum_class(I, v.cls):
-            # another member reached through a member (self.FULL_CORE inside an Enum method; Python >= 3.12 / <= 3.10)
+        if (m is not None and not isinstance(m, FuncVal) and M.is_enum_class(I, v.cls) and type(m).__name__ != "PropertyVal"
+                and not name.startswith("_")):
+            # another member of the same enum reached through a member (self.OTHER): class attribute lookup
             yield st, enum_member(I, st, v.cls, name)
             return
     if isinstance(v, str):
         yield st, str_method(I, st, v, name)
+        return
+    if isinstance(v, (_re.Pattern, _re.Match)):
+        yield st, re_method(I, st, v, name)
         return
     if isinstance(v, (bytes, bytearray)):
         if name == "join":
@@ -741,6 +745,22 @@ def sorted_values(I, st, items, key=None, reverse=False):
     if all(obj_lt(I, cur, k) for k in keys):
         yield from sort_objects(I, cur, items, keys, reverse)
         return
+    if all(isinstance(k, tuple) and len(k) >= 1 for k in keys):
+        # tuples compare lexicographically: if a concrete prefix is pairwise distinct, every comparison is decided
+        # inside that prefix and the remaining (symbolic / object) components are never looked at
+        for p in range(1, min(len(k) for k in keys) + 1):
+            pre = [k[:p] for k in keys]
+            if not all(conc(x) for x in pre):
+                break
+            if len(set(pre)) == len(pre):
+                try:
+                    order = sorted(range(len(items)), key=lambda i: pre[i], reverse=bool(reverse))
+                except TypeError:
+                    yield cur, exc("TypeError", "unorderable")
+                    return
+                I.trust("sorted", "A3: sorted/list.sort is the stable ordering permutation w.r.t. <")
+                yield cur, [items[i] for i in order]
+                return
     if key is None and reverse in (False, True) and all(_plain_number(k) for k in keys):
         yield from sort_symbolic_numbers(I, cur, items, bool(reverse))
         return
@@ -1303,6 +1323,58 @@ def _format_symbolic(fmt, args, kwargs):
     return build_fmtstr(parts)
 
 
+# ---- regular expressions: concrete only (pattern, subject and results are concrete strings); the CPython `re`
+# engine is the model.  Anything symbolic is Unsupported.
+import re as _re  # noqa: E402
+
+_RE_METHODS = {"match", "fullmatch", "search", "findall", "sub", "split", "group", "groups", "groupdict", "start", "end", "span"}
+_RE_ATTRS = {"pattern", "groups", "string", "lastindex"}
+
+
+def _re_conc(x):
+    if isinstance(x, (str, int, bool, type(None), _re.Pattern, _re.Match)) and not is_z3(x):
+        return x
+    if isinstance(x, tuple):
+        return tuple(_re_conc(y) for y in x)
+    raise Unsupported("re with a symbolic / non-string argument")
+
+
+def _re_result(st, r):
+    if isinstance(r, list):
+        return st.alloc(ListE([_re_result(st, x) for x in r]))
+    if isinstance(r, dict):
+        return st.alloc(DictE({k: _re_result(st, x) for k, x in r.items()}))
+    if isinstance(r, tuple):
+        return tuple(_re_result(st, x) for x in r)
+    if isinstance(r, (str, int, bool, type(None), _re.Pattern, _re.Match)):
+        return r
+    raise Unsupported("re result %r" % (r,))
+
+
+def re_call(pyfn, label):
+    def fn(I, st, a, k):
+        ca = [_re_conc(x) for x in a]
+        ck = {kk: _re_conc(x) for kk, x in k.items()}
+        try:
+            r = pyfn(*ca, **ck)
+        except Exception as e:  # noqa
+            yield st, exc(type(e).__name__ if type(e).__name__ in ("IndexError", "TypeError", "ValueError") else "ValueError", str(e))
+            return
+        yield st, _re_result(st, r)
+
+    return bi(label, fn)
+
+
+def re_method(I, st, v, name):
+    if isinstance(v, _re.Match) and name in ("group", "groups", "groupdict", "start", "end", "span"):
+        return re_call(_b.getattr(v, name), "re.Match." + name)
+    if isinstance(v, _re.Pattern) and name in ("match", "fullmatch", "search", "findall", "sub", "split"):
+        return re_call(_b.getattr(v, name), "re.Pattern." + name)
+    if name in _RE_ATTRS and not (isinstance(v, _re.Match) and name == "groups"):
+        return _re_result(st, _b.getattr(v, name))
+    raise Unsupported("re attribute " + name)
+
+
 # ============================================================================ builtin classes as callables
 def call_builtin_class(I, st, c, args, kwargs):
     M = _m()
@@ -1324,6 +1396,18 @@ def call_builtin_class(I, st, c, args, kwargs):
             yield st, str(v)
         elif isinstance(v, Fraction):
             yield st, repr(float(v))
+        elif isinstance(v, M.EnumMember):
+            m, _ = I.class_lookup(v.cls, "__str__")
+            if isinstance(m, FuncVal):
+                yield from I.call(BoundMethod(m, v), [], {}, st)  # the enum's own __str__
+            elif (m is None and not any(I.class_lookup(v.cls, h)[0] is not None for h in ("__repr__", "__format__"))
+                  and [ast.unparse(b) for b in v.cls.node.bases] in (["enum.Enum"], ["Enum"])):  # not IntEnum / Flag / StrEnum
+                yield st, "%s.%s" % (v.cls.name, v.name)  # enum.Enum.__str__
+            else:
+                yield st, Opaque("str()")
+        elif isinstance(v, Ref) and st.get(v).kind == "obj" and I.class_lookup(st.get(v).cls, "__str__")[0] is not None:
+            # str(obj) is type(obj).__str__(obj)
+            yield from I.call(BoundMethod(I.class_lookup(st.get(v).cls, "__str__")[0], v), [], {}, st)
         else:
             # str(x) = type(x).__str__(x) when the class (of an object or an enum member) defines __str__
             vcls = None
@@ -2385,40 +2469,78 @@ def make_ext_modules(I):
             if e.kind != "obj":
                 yield st, st.alloc(e.copy())
                 return
+            m, _ = I.class_lookup(e.cls, "__copy__")
+            if m is not None:
+                yield from I.call(BoundMethod(m, v), [], {}, st)  # the class's own shallow-copy hook
+                return
+            for hook in ("__reduce_ex__", "__reduce__", "__getstate__", "__setstate__"):
+                if I.class_lookup(e.cls, hook)[0] is not None:
+                    raise Unsupported("copy.copy of an object with %s" % hook)
             yield st, st.alloc(ObjE(e.cls, dict(e.attrs)))
             return
         yield st, v
 
     def cp_deepcopy(I, st, a, k):
-        I.trust("deepcopy", "A6: copy.deepcopy yields a structurally equal, disjoint copy (containers and plain objects)")
+        I.trust("deepcopy", "A6: copy.deepcopy yields a structurally equal, disjoint copy (containers and plain objects; "
+                            "__getstate__/__setstate__ honoured as by copyreg: new object, state deep-copied, then set)")
         memo = {}
+        S = [st]
+
+        def call1(fn, args):
+            outs = list(I.call(fn, args, {}, S[0]))
+            if len(outs) != 1 or isinstance(outs[0][1], Exc):
+                raise Unsupported("copy protocol method forks or raises")
+            S[0] = outs[0][0]
+            return outs[0][1]
 
         def dc(v):
             if isinstance(v, Ref):
                 if v.id in memo:
                     return memo[v.id]
-                e = st.get(v)
+                e = S[0].get(v)
                 if e.kind == "obj":
-                    m, _ = I.class_lookup(e.cls, "__deepcopy__")
-                    if m is not None:
-                        raise Unsupported("deepcopy of object with __deepcopy__")
-                    new = st.alloc(ObjE(e.cls, {}))
+                    for hook in ("__deepcopy__", "__reduce_ex__", "__reduce__"):
+                        if I.class_lookup(e.cls, hook)[0] is not None:
+                            raise Unsupported("deepcopy of object with %s" % hook)
+                    gs, _ = I.class_lookup(e.cls, "__getstate__")
+                    ss, _ = I.class_lookup(e.cls, "__setstate__")
+                    new = S[0].alloc(ObjE(e.cls, {}))
                     memo[v.id] = new
-                    st.get(new).attrs = {kk: dc(x) for kk, x in e.attrs.items()}
+                    if gs is None:
+                        attrs = {kk: dc(x) for kk, x in S[0].get(v).attrs.items()}
+                        if ss is None:
+                            S[0].get(new).attrs = attrs
+                        else:
+                            call1(BoundMethod(ss, new), [S[0].alloc(DictE(attrs))])
+                        return new
+                    state = dc(call1(BoundMethod(gs, v), []))
+                    if ss is not None:
+                        call1(BoundMethod(ss, new), [state])
+                    elif state is None:
+                        pass
+                    elif isinstance(state, Ref) and S[0].get(state).kind == "dict" and all(isinstance(kk, str) for kk in S[0].get(state).items):
+                        S[0].get(new).attrs.update(S[0].get(state).items)
+                    else:
+                        raise Unsupported("deepcopy: __getstate__ result is not a dict")
                     return new
-                new = st.alloc(e.copy())
+                new = S[0].alloc(e.copy())
                 memo[v.id] = new
-                ne = st.get(new)
                 if e.kind in ("list", "deque"):
-                    ne.items = [dc(x) for x in e.items]
+                    items = [dc(x) for x in e.items]
+                    S[0].get(new).items = items
                 elif e.kind == "dict":
-                    ne.items = {kk: dc(x) for kk, x in e.items.items()}
+                    items = {kk: dc(x) for kk, x in e.items.items()}
+                    S[0].get(new).items = items
                 return new
             if isinstance(v, tuple):
                 return tuple(dc(x) for x in v)
+            if isinstance(v, ObjDict):
+                # deepcopy(obj.__dict__): a plain dict holding deep copies of the instance attributes
+                return S[0].alloc(DictE({kk: dc(x) for kk, x in v.attrs(S[0]).items()}))
             return v
 
-        yield st, dc(a[0])
+        r = dc(a[0])
+        yield S[0], r
 
     E["copy"] = {"copy": bi("copy.copy", cp_copy), "deepcopy": bi("copy.deepcopy", cp_deepcopy)}
 
@@ -2476,12 +2598,6 @@ def make_ext_modules(I):
     E["string"] = {n: _b.getattr(_string, n) for n in ("ascii_uppercase", "ascii_lowercase", "ascii_letters", "digits", "hexdigits",
                                                        "octdigits", "punctuation", "whitespace", "printable")}
 
-    def re_compile(I, st, a, k):
-        if not isinstance(a[0], str) or k or len(a) > 1:
-            raise Unsupported("re.compile of a non-literal pattern / with flags")
-        yield st, RePattern(a[0])
-
-    E["re"] = {"compile": bi("re.compile", re_compile)}
 
     def st_mean(I, st, a, k):
         """statistics.mean of a concrete-length sequence of numbers: their sum / their number (A1: as a real);
@@ -2502,6 +2618,11 @@ def make_ext_modules(I):
         yield st, (tot / Fraction(len(xs)) if isinstance(tot, Fraction) else tot / z3.RealVal(len(xs)))
 
     E["statistics"] = {"mean": bi("statistics.mean", st_mean)}
+    # time.time() / perf_counter(): the clock is an arbitrary real number (a fresh unconstrained value per call)
+    E["time"] = {n: bi("time." + n, lambda I, st, a, k: iter([(st, I.fresh("real", "clock"))])) for n in ("time", "perf_counter", "monotonic")}
+    E["re"] = {n: re_call(_b.getattr(_re, n), "re." + n) for n in ("compile", "match", "fullmatch", "search", "findall", "sub", "split", "escape")}
+    for n in ("IGNORECASE", "I", "MULTILINE", "M", "DOTALL", "S", "VERBOSE", "X"):
+        E["re"][n] = int(_b.getattr(_re, n))
     E["warnings"] = {"warn": bi("warnings.warn", lambda I, st, a, k: iter([(st, None)]))}
 
     from . import npmodel, bytesmodel
